@@ -5,6 +5,7 @@ import (
 	"encoding/json"
 	"fmt"
 	"math"
+	"math/big"
 	"runtime/debug"
 	"sort"
 	"strconv"
@@ -1444,6 +1445,194 @@ func c17Degenerate(ring []c17Pt) bool {
 	return math.Abs(c17SignedArea(ring)) <= 1e-6*ext
 }
 
+// c17Winding decides the winding of an open ring: +1 counter-clockwise, -1 clockwise, 0 when
+// the ring has no usable winding. When every coordinate lies on the OSM grid of 1e-7 degrees
+// (all generated coordinates do) the shoelace sum is evaluated exactly in integers (math/big),
+// so that rings a few grid units across are judged correctly wherever they lie; exact reports
+// that path. A ring counts as degenerate when its exact doubled area is 0 or below 1e-9 of its
+// squared extent (a float implementation cannot be expected to see that sign); off the grid
+// the origin-shifted float sum with the coarser c17Degenerate guard is used.
+func c17Winding(ring []c17Pt) (sign int, exact bool) {
+	if len(ring) < 3 {
+		return 0, false
+	}
+	xs, ys := make([]int64, len(ring)), make([]int64, len(ring))
+	onGrid := true
+	for i, p := range ring {
+		gx, gy := math.Round(p[0]*1e7), math.Round(p[1]*1e7)
+		if math.Abs(p[0]*1e7-gx) > 1e-3 || math.Abs(p[1]*1e7-gy) > 1e-3 || math.Abs(gx) > 4e9 || math.Abs(gy) > 4e9 {
+			onGrid = false
+			break
+		}
+		xs[i], ys[i] = int64(gx), int64(gy)
+	}
+	if !onGrid {
+		if c17Degenerate(ring) {
+			return 0, false
+		}
+		if c17SignedArea(ring) > 0 {
+			return 1, false
+		}
+		return -1, false
+	}
+	sum := new(big.Int)
+	minx, maxx, miny, maxy := xs[0], xs[0], ys[0], ys[0]
+	for i := range xs {
+		j := (i + 1) % len(xs)
+		t := new(big.Int).Mul(big.NewInt(xs[i]), big.NewInt(ys[j]))
+		t.Sub(t, new(big.Int).Mul(big.NewInt(xs[j]), big.NewInt(ys[i])))
+		sum.Add(sum, t)
+		minx, maxx = min(minx, xs[i]), max(maxx, xs[i])
+		miny, maxy = min(miny, ys[i]), max(maxy, ys[i])
+	}
+	if sum.Sign() == 0 {
+		return 0, true
+	}
+	// |2A| * 1e9 >= extent^2 ?
+	ext := new(big.Int).Add(new(big.Int).Mul(big.NewInt(maxx-minx), big.NewInt(maxx-minx)), new(big.Int).Mul(big.NewInt(maxy-miny), big.NewInt(maxy-miny)))
+	lhs := new(big.Int).Mul(new(big.Int).Abs(sum), big.NewInt(1_000_000_000))
+	if lhs.Cmp(ext) < 0 {
+		return 0, true
+	}
+	return sum.Sign(), true
+}
+
+// c17TinyPlaces are where the tiny rings are put, in grid units of 1e-7 degrees (lon, lat):
+// far from lon/lat 0 (where an unshifted shoelace sum loses the sign), and next to 0 as control.
+var c17TinyPlaces = []struct {
+	name     string
+	lon, lat int64
+}{
+	{"dateline-north", 1_799_000_000, 899_000_000}, {"dateline-south", -1_799_000_000, -899_000_000},
+	{"san-francisco", -1_224_194_155, 377_749_295}, {"tokyo", 1_396_917_064, 356_894_875},
+	{"sydney", 1_512_093_011, -338_688_197}, {"santiago", -706_692_655, -334_488_897},
+	{"anchorage", -1_499_002_778, 612_180_556}, {"null-island", 120, 85},
+}
+
+// c17TinyShapes: rings in grid units (counter-clockwise as listed), a few units across,
+// including thin slivers.
+var c17TinyShapes = []struct {
+	name string
+	pts  [][2]int64
+}{
+	{"square-1", [][2]int64{{0, 0}, {1, 0}, {1, 1}, {0, 1}}},
+	{"square-2", [][2]int64{{0, 0}, {2, 0}, {2, 2}, {0, 2}}},
+	{"square-5", [][2]int64{{0, 0}, {5, 0}, {5, 5}, {0, 5}}},
+	{"square-10", [][2]int64{{0, 0}, {10, 0}, {10, 10}, {0, 10}}},
+	{"square-30", [][2]int64{{0, 0}, {30, 0}, {30, 30}, {0, 30}}},
+	{"triangle-1", [][2]int64{{0, 0}, {1, 0}, {0, 1}}},
+	{"triangle-3", [][2]int64{{0, 0}, {3, 1}, {1, 3}}},
+	{"sliver-rect-50x1", [][2]int64{{0, 0}, {50, 0}, {50, 1}, {0, 1}}},
+	{"sliver-tri-80x1", [][2]int64{{0, 0}, {80, 0}, {40, 1}}},
+	{"sliver-diag", [][2]int64{{0, 0}, {60, 59}, {61, 61}, {1, 1}}},
+	{"l-shape", [][2]int64{{0, 0}, {4, 0}, {4, 2}, {2, 2}, {2, 4}, {0, 4}}},
+	{"pentagon", [][2]int64{{2, 0}, {5, 2}, {4, 6}, {1, 6}, {0, 2}}},
+}
+
+// tinyWay adds an area way over fresh nodes at base + pts (grid units), stored in the given
+// direction and starting vertex.
+func (d *c17DS) tinyWay(lon, lat int64, pts [][2]int64, clockwise bool, rot int, label string) {
+	ids := make([]int64, len(pts))
+	for i, p := range pts {
+		n := d.addNode("loc", "none")
+		n.Lon, n.Lat = float64(lon+p[0])/1e7, float64(lat+p[1])/1e7
+		ids[i] = int64(n.ID)
+	}
+	if clockwise {
+		for i, j := 0, len(ids)-1; i < j; i, j = i+1, j-1 {
+			ids[i], ids[j] = ids[j], ids[i]
+		}
+	}
+	rot %= len(ids)
+	ids = append(append([]int64{}, ids[rot:]...), ids[:rot]...)
+	at := c17AreaTags[d.r.Intn(len(c17AreaTags))]
+	w := d.addWay(append(ids, ids[0]), osm.Tags{{Key: at[0], Value: at[1]}})
+	d.area[w.ID] = true
+	if d.keySuffix == nil {
+		d.keySuffix = map[osm.WayID]string{}
+	}
+	d.keySuffix[w.ID] = "/" + label
+	d.wayCls["area"], d.wayCls["area-tiny"] = true, true
+}
+
+// c17TinyTable: per place one data set with every shape in both stored directions.
+func c17TinyTable() []*c17DS {
+	var out []*c17DS
+	for pi, pl := range c17TinyPlaces {
+		d := c17NewDS(uint64(pi+1), "tinyarea/"+pl.name)
+		k := int64(0)
+		for si, sh := range c17TinyShapes {
+			for _, cw := range []bool{false, true} {
+				dir := "ccw-input"
+				if cw {
+					dir = "cw-input"
+				}
+				// rings 1000 units apart so that no two nodes coincide; stay inside +-180 / +-90
+				dx, dy := k%6*1000, k/6*1000
+				if pl.lon > 0 {
+					dx = -dx
+				}
+				if pl.lat > 0 {
+					dy = -dy
+				}
+				d.tinyWay(pl.lon+dx, pl.lat+dy, sh.pts, cw, si+int(k), "tiny/"+sh.name+"/"+dir)
+				k++
+			}
+		}
+		out = append(out, d)
+	}
+	return out
+}
+
+// c17TinyRandom: a small random data set plus random tiny star-shaped area ways (3-7 vertices in
+// a box of 2..40 grid units) at random places on the grid, both directions.
+func c17TinyRandom(seed uint64) *c17DS {
+	d := c17Random(seed, 0, 8, 0)
+	d.label = "tinyarea/random"
+	r := d.r
+	for i, n := 0, r.Range(2, 6); i < n; i++ {
+		lon := r.Int64Range(-1_799_900_000, 1_799_900_000)
+		lat := r.Int64Range(-899_900_000, 899_900_000)
+		box := int64(r.Pick(2, 3, 5, 10, 20, 40))
+		var pts [][2]int64
+		for tries := 0; ; tries++ {
+			k := r.Range(3, 7)
+			seen := map[[2]int64]bool{}
+			pts = pts[:0]
+			for len(pts) < k {
+				p := [2]int64{r.Int64Range(0, box), r.Int64Range(0, box)}
+				if !seen[p] {
+					seen[p] = true
+					pts = append(pts, p)
+				}
+				if len(seen) >= int((box+1)*(box+1)) {
+					break
+				}
+			}
+			// star order around the centroid (scaled by k to stay in integers)
+			var cx, cy int64
+			for _, p := range pts {
+				cx += p[0]
+				cy += p[1]
+			}
+			kk := int64(len(pts))
+			sort.SliceStable(pts, func(a, b int) bool {
+				return math.Atan2(float64(pts[a][1]*kk-cy), float64(pts[a][0]*kk-cx)) < math.Atan2(float64(pts[b][1]*kk-cy), float64(pts[b][0]*kk-cx))
+			})
+			var twice int64
+			for a := range pts {
+				b := (a + 1) % len(pts)
+				twice += pts[a][0]*pts[b][1] - pts[b][0]*pts[a][1]
+			}
+			if len(pts) >= 3 && twice > 0 {
+				break
+			}
+		}
+		d.tinyWay(lon, lat, pts, r.Bool(), r.Intn(7), fmt.Sprintf("tiny-random/box%d", box))
+	}
+	return d
+}
+
 // c17Open strips the closing point of a closed sequence.
 func c17Open(ring []c17Pt) []c17Pt {
 	if len(ring) >= 2 && ring[0] == ring[len(ring)-1] {
@@ -2073,16 +2262,19 @@ func (u *c17Run) checkWayGeometry(w *osm.Way, gt string, coords any, ex map[stri
 			u.viol("C17/way/area-cycle", fmt.Sprintf("way %d: polygon ring %v is not the cycle of the resolvable node coordinates %v", id, ring, readings[0]), ex)
 			return
 		}
-		if !c17Degenerate(c17Open(ring)) {
-			if c17SignedArea(c17Open(ring)) <= 0 {
-				u.viol("C17/way/area-winding", fmt.Sprintf("way %d: outer ring is wound clockwise: %v", id, ring), ex)
+		if wd, exact := c17Winding(c17Open(ring)); wd != 0 {
+			if wd < 0 {
+				u.viol("C17/way/area-winding"+f.d.keySuffix[w.ID], fmt.Sprintf("way %d: outer ring is wound clockwise: %v", id, ring), ex)
 			}
 			u.res.Add("way_rings_winding_checked", 1)
+			if exact {
+				u.res.Add("way_rings_winding_checked_exact", 1)
+			}
 		}
 		for _, h := range rings[1:] {
 			if len(h) < 2 || h[0] != h[len(h)-1] {
 				u.viol("C17/way/hole-not-closed", fmt.Sprintf("way %d: hole ring not closed", id), ex)
-			} else if !c17Degenerate(c17Open(h)) && c17SignedArea(c17Open(h)) >= 0 {
+			} else if wd, _ := c17Winding(c17Open(h)); wd > 0 {
 				u.viol("C17/way/hole-winding", fmt.Sprintf("way %d: hole ring wound counter-clockwise", id), ex)
 			}
 		}
@@ -2506,6 +2698,15 @@ func c17Exec(c fw.Case) *fw.Result {
 		}
 		d := c17Random(c.Seed, int(c.Int("size")), rw, int(c.Int("routes")))
 		c17Check(res, d)
+	case "tinytable":
+		ds := c17TinyTable()
+		for _, d := range ds {
+			c17Check(res, d)
+			res.Add("tiny_area_ways", int64(len(d.o.Ways)))
+		}
+		res.Sample = map[string]any{"datasets": len(ds), "first": res.Sample}
+	case "tinyrandom":
+		c17Check(res, c17TinyRandom(c.Seed))
 	case "areatable":
 		ds := c17AreaTable()
 		for _, d := range ds {
@@ -2563,6 +2764,14 @@ func init() {
 				cs = append(cs, fw.Case{Kind: "random", Seed: gen.Sub(seed, "c17", i), P: map[string]int64{"size": size, "rw": rw, "routes": routes}})
 			}
 			cs = append(cs, c17InvalidCases(tier, seed)...)
+			cs = append(cs, fw.Case{Kind: "tinytable", Seed: 1})
+			tiny := 40
+			if tier == "thorough" {
+				tiny = 1000
+			}
+			for i := 0; i < tiny; i++ {
+				cs = append(cs, fw.Case{Kind: "tinyrandom", Seed: gen.Sub(seed, "c17tiny", i)})
+			}
 			for _, v := range []string{"plain", "race"} {
 				cs = append(cs, fw.Case{Kind: "coldstart", Variant: v, P: map[string]int64{"processes": 5}})
 			}
